@@ -288,10 +288,16 @@ impl MutationQuery {
                                 MutationFieldValue::Variable(v) => {
                                     let value = parameters.params.get(v).unwrap();
 
-                                    serde_json::from_str(value.as_string().unwrap())?
+                                    match value.as_string() {
+                                        Some(s) => serde_json::from_str(s)?,
+                                        None => serde_json::Value::Null,
+                                    }
                                 }
                                 MutationFieldValue::Value(v) => {
-                                    serde_json::from_str(v.as_string().unwrap())?
+                                    match v.as_string() {
+                                        Some(s) => serde_json::from_str(s)?,
+                                        None => serde_json::Value::Null,
+                                    }
                                 }
                                 _ => unreachable!(),
                             };
